@@ -393,8 +393,8 @@ class Exec:
         return True
 
     def do_try(self, st, path):
-        if st.finalbody or st.orelse:
-            self.unsupported(st, "try/finally/else")
+        if st.orelse:
+            self.unsupported(st, "try/else")
         out = []
         for kind, val, p in self.block(st.body, path):
             if kind == "raise":
@@ -407,7 +407,15 @@ class Exec:
                     out.append((kind, val, p))
             else:
                 out.append((kind, val, p))
-        return out
+        if not st.finalbody:
+            return out
+        # finally: runs after EVERY outcome of the protected part; if it completes normally the original outcome continues
+        # (fall / return value / the exception keeps propagating), otherwise its own outcome replaces it
+        fin = []
+        for kind, val, p in out:
+            for k2, v2, p2 in self.block(st.finalbody, p):
+                fin.append((kind, val, p2) if k2 == "fall" else (k2, v2, p2))
+        return fin
 
     def do_yield(self, node, path):
         if isinstance(node, ast.YieldFrom):
@@ -418,7 +426,9 @@ class Exec:
             if isinstance(v, Raised):
                 out.append(("raise", v.exc, p)); continue
             self.yields.append((v, p.fork()))
-            out.append(("fall", None, p))
+            resume = getattr(self, "yield_resume", None)
+            # a generator used as a context manager is resumed normally or has the with-body's exception thrown in at the yield
+            out += resume(node, p) if resume is not None else [("fall", None, p)]
         return out
 
     # ---- assignment ---------------------------------------------------------------------------
@@ -770,6 +780,8 @@ class Exec:
         return {ast.Lt: lambda: x < y, ast.LtE: lambda: x <= y, ast.Gt: lambda: x > y, ast.GtE: lambda: x >= y}[type(op)]()
 
     def equal(self, a, b, node):
+        if a is b and isinstance(a, Dyn):
+            return z3.BoolVal(True)        # the very same None/int/str/tuple/object value: `==` is reflexive on these
         if isinstance(a, z3.BoolRef) and isinstance(b, z3.BoolRef):
             return a == b
         if isinstance(a, (z3.ArithRef, int, Dyn)) and isinstance(b, (z3.ArithRef, int, Dyn)):
